@@ -61,8 +61,13 @@ func (o ObjectAndFilterResult) Map() map[string]interface{} {
 	var filterResultValue interface{}
 	if o.Metadata.JqFilter != "" {
 		// jqFilter is set, so filterResult field should be in a map.
-		// FilterResult is a jq output and should be a string.
+		// FilterResult is a jq output: a string with JSON or an already decoded value.
 		filterResString, ok := o.FilterResult.(string)
+		if !ok && o.FilterResult != nil {
+			// The filter stores a decoded jq result (e.g. map[string]any), pass it as is.
+			m["filterResult"] = o.FilterResult
+			return m
+		}
 		if !ok || filterResString == "" {
 			m["filterResult"] = nil
 			return m
